@@ -544,6 +544,23 @@ def run(ctx):
             wrapped = any((f.bcallee(j) or '') in ('cppcms::util::escape', 'cppcms::filters::escape::escape', 'cppcms::util::urlencode') or (f.bcallee(j) or '').startswith('cppcms::filters::escape') for j in f.calls(arg))
             ctx.check(wrapped, R2, 'form:%s#%d:escaped' % (f.bname.replace('cppcms::widgets::', '').replace('cppcms::', ''), n_sites), 'user-controlled text written to the page without util::escape / filters::escape', f.loc(i))
     ctx.stats['form_output_sites'] = n_sites
+    # header-only widgets (numeric<T>): instantiated in an analysis-only unit; the text the user submitted is echoed only escaped
+    PW = model.Program(build.extract([VERIF + '/witness/c15_form.cpp'], include_re='^/repo/cppcms/form\\.h'))
+    ctx.units.append('witness/c15_form.cpp')
+    nw = 0
+    for f in sorted([g for g in PW.fns.values() if 'widgets::numeric' in (g.record or '') and g.body is not None], key=lambda g: g.id):
+        for i in f.calls():
+            n = f.N(i)
+            if n['k'] != 'CXXOperatorCallExpr' or n.get('op') != '<<' or len(n['ch']) < 3:
+                continue
+            arg = n['ch'][2]
+            strs = [j for j in f.walk(arg) if f.N(j)['k'] == 'MemberExpr' and (f.N(j).get('ref') or '').startswith('f:') and 'basic_string' in (f.type_of(f.N(j)) or '')]
+            if not strs:
+                continue
+            nw += 1
+            wrapped = any((f.bcallee(j) or '') in ('cppcms::util::escape', 'cppcms::util::urlencode') or (f.bcallee(j) or '').startswith('cppcms::filters::escape') for j in f.calls(arg))
+            ctx.check(wrapped, R2, 'form.h:%s:%s#%d:escaped' % ((f.record or '').rsplit('::', 1)[-1], f.short, nw), 'text the user submitted (kept in a string member) is written to the page without util::escape', f.loc(i))
+    ctx.require(nw >= 2 or ctx.violations, 'C15.R2: numeric<T>::render_value echo of the submitted text not found (%d)' % nw)
 
     # ---------------- R5 sink failure is reported
     esb = [f for f in P.by_bname.get('cppcms::util::escape', []) if len(f.params) == 3 and 'basic_streambuf' in f.id]
@@ -844,7 +861,7 @@ def run(ctx):
     ctx.floor(R5, 7)
     ctx.floor(R6, 6)
     ctx.floor(R1, 4)
-    ctx.floor(R2, 12)
+    ctx.floor(R2, 14)
     # ---------------- R8 template filters install their converting buffer around the rendering of the value
     R8 = ctx.rule('C15.R8', 'template filters escape / urlencode / base64_urlencode: operator()(out) diverts `out` into the converting buffer (constructed on, or steal()ing, that very stream) before the value is rendered, '
                             'renders the value into the same stream on every path, and (base64) releases the captured text and encodes exactly [begin(),end()) of it back into `out`')
@@ -876,7 +893,16 @@ def run(ctx):
                     ok = src(a_[0], 'begin') and not src(a_[0], 'end') and src(a_[1], 'end') and not src(a_[1], 'begin') and f.ref_of(a_[2]) == outp
                     why = 'b64url::encode is not given [begin(), end()) of the captured text and `out`'
         ctx.check(ok, R8, 'filters::%s::operator():diverts-then-renders' % cls, why, f.where)
-    ctx.floor(R8, 3)
+    # filters are passed around by value: a copy renders the same value through the same functions
+    ncp = 0
+    for rec_ in ('cppcms::filters::streamable', 'cppcms::filters::escape', 'cppcms::filters::urlencode', 'cppcms::filters::base64_urlencode'):
+        flds_, cov_ = q.copy_coverage(P, rec_, skip=('d',))
+        for g_, missing in sorted(cov_.items(), key=lambda kv: kv[0].id):
+            ncp += 1
+            ctx.check(not missing, R8, '%s::%s:copies-every-member' % (rec_.rsplit('::', 1)[-1], 'copy-constructor' if g_.kind == 'ctor' else 'operator='),
+                      'the copy does not take %s from the source: a copied filter renders something else (or through another function) than the original' % [x.rsplit('::', 1)[-1] for x in missing], g_.where)
+    ctx.require(ncp >= 6 or ctx.violations, 'C15.R8: copy operations of the filter classes not found (%d)' % ncp)
+    ctx.floor(R8, 9)
     if _pending_broken and not ctx.violations:
         raise AnalysisBroken(_pending_broken[0])
     ctx.floor(R3, 4)
